@@ -370,6 +370,35 @@ def r5b_schema_location(chk: Check) -> None:
         chk.note("C15.R5: the schema location is not displayed by OutputHandler")
 
 
+def r5c_error_messages(chk: Check) -> None:
+    """URLs interpolated into the error texts that the console ERRORS section and JUnit print."""
+    P = chk.project
+    n = 0
+    for rel in ("core/errors.py", "engine/errors.py"):
+        mod = P.module(rel)
+        for fn in mod.functions.values():
+            if isinstance(fn.node, ast.Lambda):
+                continue
+            for js in (x for x in walk_body(fn.node) if isinstance(x, ast.JoinedStr)):
+                for part in js.values:
+                    if not isinstance(part, ast.FormattedValue):
+                        continue
+                    e = part.value
+                    urlish = (isinstance(e, ast.Attribute) and e.attr == "url") or (isinstance(e, ast.Name) and e.id == "url")
+                    wrapped = isinstance(e, ast.Call) and last_attr(e) == "sanitize_url"
+                    if not (urlish or wrapped):
+                        continue
+                    n += 1
+                    construct = f"{fn.name}: URL in an error message `{unparse(js, 50)}`"
+                    if wrapped:
+                        chk.ok("C15.R5", fn, construct, "through sanitize_url", fn.loc(js))
+                    else:
+                        chk.violation("C15.R5", fn, construct,
+                                      f"`{unparse(e)}` (path and QUERY of the failed request) is pasted into the error text verbatim: on every connect timeout the console ERRORS section and JUnit show `Max retries exceeded with url: /items?api_key=SECRET` although sanitization is on",
+                                      fn.loc(js))
+    chk.note(f"C15.R5: {n} URL interpolation(s) in error texts")
+
+
 def r6_late_bound_config(chk: Check) -> None:
     chk.rule("C15.R6", "LATE BINDING(active sanitization config): `configure()` / `extend()` REBIND a module global, so every reader must look the global up when it is called - a parameter default, a module-level alias or a `from ... import` of that name captures the object that existed at import time and ignores later customisation", floor=2)
     P = chk.project
@@ -422,4 +451,4 @@ def rfwd_forwarding(chk: Check) -> None:
 
 
 def rules(tier: str) -> list:  # type: ignore[type-arg]
-    return [r1_writers, r2_curl, r3_plumbing, r4_sanitizer, r5_console_urls, r5b_schema_location, r6_late_bound_config, rfwd_forwarding]
+    return [r1_writers, r2_curl, r3_plumbing, r4_sanitizer, r5_console_urls, r5b_schema_location, r5c_error_messages, r6_late_bound_config, rfwd_forwarding]
